@@ -4,6 +4,8 @@ model:    lean/CssVerif/Model/Struct.lean (K2: _tokensupto2, _parse, declaration
           unknown / style / media rule, sheet dispatcher)
 theorems: lean/CssVerif/Props/C04.lean
 tie:      (a) translator: MarginRule.margins -> Gen/C04Margins.lean
+          (c) truncated sheets: certificate + predicted rule list (driver `cut`, theorem truncation_certified) vs
+              the model's answer and the DOM; composed model text -> C05 tokenizer model -> sheet (driver `text`)
           (b) correspondence on token lists produced by the real tokenizer:
               _tokensupto2 (all 13 modes x start token), CSSUnknownRule.wellformed,
               CSSStyleDeclaration.cssText (the seq), parseString (cssRules projection).
@@ -325,7 +327,11 @@ class C04(Check):
         'selectors, property values, media query lists and the bodies of @charset/@import/@namespace/@page/'
         '@font-face/@variables/margin rules are opaque (an arbitrary oracle in every theorem); in the '
         'correspondence the oracle is the real sub-parser run on exactly the token lists the model shows',
-        'the tokenizer is not modelled here (C05): both sides start from the tokens of the real tokenizer',
+        'the tokenizer is not modelled here (C05): both sides start from the tokens of the real tokenizer; the '
+        'text-level theorems (T4.5) use the tokenizer model of C05, and the stream text-pipeline checks on a sample '
+        'that this model composed with the structure model reproduces the real tokens and the same rule tree',
+        'truncation certificates are found by an unverified greedy search (findCut) and judged by the verified '
+        'check Cut.ok; the predicted rule list is compared with the model and with the DOM on every truncated sheet',
     )
     assumptions = ('token lists have EOF only as last token and single-character CHAR tokens (tokenizer invariant, '
                    'checked by the driver on every request)',)
@@ -333,7 +339,7 @@ class C04(Check):
             '@variables / unknown at-rules / comments, random spelling: white space, comments, case of at-keywords, '
             'escapes) x injection point at every statement and declaration boundary x garbage from a balanced-token '
             'grammar that the implementation itself does not accept as a construct; all token-boundary prefixes of '
-            'grammar sheets; a malformed stream (token deletion/duplication/bracket injection, truncation); direct '
+            'grammar sheets and of chains of 3-6 nested @media rules (kinds cut:<shape of what is open at the cut>); a malformed stream (token deletion/duplication/bracket injection, truncation); direct '
             'calls of _tokensupto2 in all 13 modes with and without start token. non-trivial = distinct input whose '
             'parse drops or closes something (damaged differs from original text, or truncated before the end)')
 
@@ -519,7 +525,7 @@ class C04(Check):
                 ctx.disagree('parseString/' + kind, {'text': text}, strip_proj(real), strip_proj(mp))
         if cuts:
             self.check_cuts(ctx, texts, toklists, models, reals, kind)
-            self.check_text_pipeline(ctx, texts, toklists, models, kind, ctx.n(12, 40))
+            self.check_text_pipeline(ctx, texts, toklists, models, kind, ctx.n(12, 24))
         return reals
 
     # -- correspondence: _tokensupto2 directly ---------------------------------------------------------
@@ -608,8 +614,8 @@ class C04(Check):
 
     # -- truncation ---------------------------------------------------------------------------------------
     def corr_and_oracle_truncation(self, ctx, rng, sheets):
-        n_sheets = ctx.n(25, 300)
-        deep = [G.gen_deep_sheet(rng) for _ in range(ctx.n(2, 40))]
+        n_sheets = ctx.n(25, 240)
+        deep = [G.gen_deep_sheet(rng) for _ in range(ctx.n(2, 16))]
         for sh in sheets[:n_sheets] + deep:
             text, _ = sh.render()
             toks = tokenize(text)
